@@ -1,6 +1,7 @@
 //! C07 Bytecode files round-trip exactly and corrupted files are rejected.
 
 use crate::alloc;
+use crate::canon::*;
 use crate::fw::*;
 use crate::genprog::*;
 use mech_core::*;
@@ -56,7 +57,7 @@ fn put(b: &mut [u8], off: usize, width: usize, val: u64) { for i in 0..width { i
 
 impl Prop for C07 {
   fn id(&self) -> &'static str { "C07" }
-  fn rule(&self) -> String { "corpus = bytecode emitted for the C06 program generators (every constant kind and opcode the compiler emits); per file and family: roundtrip (to_bytes(from_bytes(b)) = b, decoded header/constants/instructions = what CompileCtx holds), EVERY truncation length, EVERY single-bit flip, bursts of 2..32 bits at every / sampled start bit, structural mutations with the CRC recomputed (every header field x hostile values {0,1,len-1,len,len+1,2^31,2^32-1,2^63,2^64-1,...}, hostile words over the type / constant-table / blob / instruction regions, section offsets pointing into other sections, spliced files), and random byte strings with and without the MECH magic. A counting global allocator records the largest single request per load. Non-trivial = the family produced at least one mutated file that reached the loader".into() }
+  fn rule(&self) -> String { "corpus = bytecode emitted for the C06 program generators (every constant kind and opcode the compiler emits); per file and family: roundtrip (to_bytes(from_bytes(b)) = b, decoded header/constants/instructions = what CompileCtx holds, every decoded constant value re-encodes to the bytes it was decoded from), EVERY truncation length, EVERY single-bit flip, bursts of 2..32 bits at every / sampled start bit, structural mutations with the CRC recomputed (every header field x hostile values {0,1,len-1,len,len+1,2^31,2^32-1,2^63,2^64-1,...}, hostile words over the type / constant-table / blob / instruction regions, section offsets pointing into other sections, spliced files), and random byte strings with and without the MECH magic. A counting global allocator records the largest single request per load. Non-trivial = the family produced at least one mutated file that reached the loader".into() }
   fn assumptions(&self) -> Vec<String> { vec![
     "allocation bound: largest single request <= 64 MiB + 64 x file length (files are < 64 KiB); requests above 1 GiB are refused by the monitor and observed as an abort".into(),
     "hangs are observed by the per-case watchdog and reported as inconclusive (wall-clock is never a verdict)".into(),
@@ -69,8 +70,9 @@ impl Prop for C07 {
     let mut out = Vec::new();
     let stride = if tier == Tier::Quick { 8 } else { 4 };
     for (i, (id, p)) in progs.iter().enumerate() {
-      if id.starts_with("single") && i % stride != 0 { continue; }
       for fam in FAMILIES.iter() {
+        // the damage families run on a sample of the single-construct files; the round trip runs on every file
+        if *fam != "roundtrip" && id.starts_with("single") && i % stride != 0 { continue; }
         // quick: the exhaustive families on every 3rd file only
         if tier == Tier::Quick && matches!(*fam, "bitflip" | "burst") && i % 3 != 0 { continue; }
         out.push(Case { id: format!("family={};prog={}", fam, id), cell: format!("family={}", fam), input: json!({"src": p.text(), "family": fam, "salt": i}) });
@@ -122,8 +124,24 @@ impl Prop for C07 {
             if !same { return Outcome::violated("decoded-differs-from-compiled", format!("program `{}`: instruction {:?} decoded from {:?}", src.replace('\n', " ; "), d, e)); }
           }
         }
-        // decoded constants must decode
-        match guarded(|| p.decode_const_entries()) { Ok(Ok(v)) => if v.len() != p.const_entries.len() { return Outcome::violated("decoded-differs-from-compiled", "constant count".into()); }, Ok(Err(e)) => return Outcome::held().tag(format!("const-decode-error:{}", e.kind_name())), Err(pn) => return Outcome::violated(&format!("loader-panic:{}", panic_site(&pn)), format!("decode_const_entries on the emitted file of `{}`: {}", src.replace('\n', " ; "), pn)) }
+        // decoded constants must decode, and every decoded constant re-encodes to exactly the bytes it was decoded from
+        let vals = match guarded(|| p.decode_const_entries()) { Ok(Ok(v)) => v, Ok(Err(e)) => return Outcome::violated(&format!("emitted-constants-rejected:{}:{}", e.kind_name(), composite_kind(&a)), format!("decode_const_entries fails on the emitted file of `{}`", src.replace('\n', " ; "))), Err(pn) => return Outcome::violated(&format!("loader-panic:{}", panic_site(&pn)), format!("decode_const_entries on the emitted file of `{}`: {}", src.replace('\n', " ; "), pn)) };
+        if vals.len() != p.const_entries.len() { return Outcome::violated("decoded-differs-from-compiled", "constant count".into()); }
+        let mut reenc = 0usize;
+        for (ce, v) in p.const_entries.iter().zip(vals.iter()) {
+          let orig = &p.const_blob[ce.offset as usize..(ce.offset + ce.length) as usize];
+          let mut c2 = CompileCtx::new();
+          match guarded(|| v.compile_const(&mut c2)) {
+            Ok(Ok(_)) => {
+              let Some(e2) = c2.const_entries.last() else { continue };
+              let again = &c2.const_blob[e2.offset as usize..(e2.offset + e2.length) as usize];
+              if again != orig { return Outcome::violated("constant-reencode-differs", format!("program `{}`: constant {} decodes to {} which encodes to {} bytes {:02x?}, the file holds {} bytes {:02x?}", src.replace('\n', " ; "), reenc, canon(v).show(), again.len(), &again[..again.len().min(48)], orig.len(), &orig[..orig.len().min(48)])); }
+              reenc += 1;
+            }
+            _ => {}
+          }
+        }
+        if reenc == 0 && !vals.is_empty() { return Outcome::inconclusive("no-constant-reencoded", src.to_string()); }
         return Outcome::held().num("file_bytes", n as f64);
       }
       "truncate" => { for k in 0..n { if let Some(o) = judge(&bytes[..k], true, &format!("truncated to {} bytes", k)) { return o; } } }
@@ -182,4 +200,26 @@ impl Prop for C07 {
     }
     if loads > 0 { Outcome::held().num("loads", loads as f64).num("max_single_allocation", maxreq as f64).num("file_bytes", n as f64) } else { Outcome::trivial() }
   }
+}
+
+/// the first composite value kind (fixed priority order) among the interpreter's variables: names the constant kind a
+/// decoder rejection is attributed to (value-free)
+fn composite_kind(a: &Interpreter) -> &'static str {
+  let syms = a.symbols(); let st = syms.borrow();
+  let mut seen = std::collections::BTreeSet::new();
+  fn walk(c: &CVal, seen: &mut std::collections::BTreeSet<&'static str>) {
+    match c {
+      CVal::Record(fs) => { seen.insert("record"); for f in fs { walk(&f.2, seen); } }
+      CVal::Tuple(es) => { seen.insert("tuple"); for e in es { walk(e, seen); } }
+      CVal::Table(..) => { seen.insert("table"); }
+      CVal::Map(..) => { seen.insert("map"); }
+      CVal::Enum(..) => { seen.insert("enum"); }
+      CVal::Set(_, _, es) => { seen.insert("set"); for e in es { walk(e, seen); } }
+      CVal::Atom(_) => { seen.insert("atom"); }
+      _ => {}
+    }
+  }
+  for (_, v) in st.symbols.iter() { if let Ok(c) = guarded(|| canon(&v.borrow())) { walk(&c, &mut seen); } }
+  for k in ["record", "tuple", "table", "map", "enum", "set", "atom"] { if seen.contains(k) { return k; } }
+  "none"
 }
